@@ -46,6 +46,22 @@ def parseBudget (j : Json) : R Budget := do
 def jBudget (b : Budget) : Json :=
   jObj [("loCount", jNat b.loCount), ("lo", jNat b.lo), ("el", jNat b.el)]
 
+def parseIterOp (j : Json) : R IterOp := do
+  let k ← asStr (← field j "op")
+  if k == "next" then return .next
+  else if k == "getChunk" then
+    return .getChunk (← asNat (← field j "r0")) (← asNat (← field j "r1"))
+  else if k == "getItem" then return .getItem (← asNat (← field j "i"))
+  else if k == "getItemList" then return .getItemList (← natList (← field j "xs"))
+  else if k == "getBatch" then return .getBatch (← natList (← field j "rows"))
+  else .error s!"unknown iterator op {k}"
+
+def jIterOut : IterOut Rat → Json
+  | .stop => jObj [("stop", jBool true)]
+  | .block b r0 r1 => jObj [("block", jDense b), ("r0", jNat r0), ("r1", jNat r1)]
+  | .batch b => jObj [("batch", jDense b)]
+  | .err e => jObj [("err", jStr e.name)]
+
 def handle : Handler := fun op inp =>
   match op with
   | "sparse.chunks" => some do
@@ -74,6 +90,29 @@ def handle : Handler := fun op inp =>
         else
           let B ← parseBudget (← field inp "budget")
           return jExcept jBlocks (cscIter 0 M nRows nCols cs B)
+  | "sparse.iterRun" => some do
+      -- kind = csr | csc | dense ; ops on ONE iterator object, from cursor 0
+      let kind ← asStr (← field inp "kind")
+      let cs ← asNat (← field inp "cs")
+      let ops ← asList parseIterOp (← field inp "ops")
+      let nCols ← asNat (← field inp "nCols")
+      let rd : Except SpErr (Reader Rat) ←
+        if kind == "dense" then do
+          let D ← parseDense (← field inp "dense")
+          pure (.ok (denseReader 0 D nCols))
+        else do
+          let M ← parseMat (← field inp "mat")
+          let nRows ← asNat (← field inp "nRows")
+          if kind == "csr" then pure (.ok (csrReader 0 M nRows nCols))
+          else do
+            let B ← parseBudget (← field inp "budget")
+            pure (cscReader 0 M nRows nCols B)
+      match rd with
+      | .error e => return jObj [("err", jStr e.name)]
+      | .ok rd =>
+        let r := iterRun rd cs 0 ops
+        return jObj [("cursor", jNat r.1), ("outs", jList jIterOut r.2),
+                     ("nextRows", jDense (nextRows ops r.2))]
   | "sparse.getChunk" => some do
       let r0 ← asNat (← field inp "r0")
       let r1 ← asNat (← field inp "r1")
